@@ -239,6 +239,21 @@ def d29_region(s, i):
     return False
 
 
+def d30_region(s, i):
+    """a rerun was accepted while some task execution was unfinished (parked paused/pending, or
+    still active): a transition arriving at that task stages and offers it again and the reports
+    of the new action land on the old record"""
+    for j in range(1, i + 1):
+        o, r = s["ops"][j], s["replies"][j]
+        if o["op"] == "rerun" and not raised(r):
+            before = s["replies"][j - 1].get("state") or {}
+            seq = before.get("sequence", [])
+            for idx in last_occurrence(before) if seq else []:
+                if idx < len(seq) and seq[idx].get("status") not in TERMINAL + (None,):
+                    return True
+    return False
+
+
 def region_of(s, i):
     if rearrival_region(s, i):
         return "D2"
@@ -246,6 +261,8 @@ def region_of(s, i):
         return "D20"
     if d29_region(s, i):
         return "D29"
+    if d30_region(s, i):
+        return "D30"
     return None
 
 
